@@ -108,6 +108,12 @@ Theorem C16_math_count_percentage : forall mem b, Forall (fun x => x < 256) mem 
   /\ percentage_call (Direct mem) [AInt b] = spec_call (Direct mem) MPercentage [AInt b].
 Proof. exact (fun mem b H => conj (count_whole mem b H) (percentage_whole mem b H)). Qed.
 
+(* mode: proved part = "a byte value of maximal count" (that it is the smallest such value is tied by the
+   correspondence only) *)
+Theorem C16_math_mode_partial : forall mem, Forall (fun x => x < 256) mem ->
+  exists i, mode_call (Direct mem) [] = RInt (Z.of_N i) /\ i < 256 /\ forall b, b < 256 -> count_of b mem <= count_of i mem.
+Proof. exact mode_whole_max. Qed.
+
 Theorem C16_math_mean : forall s, sum_list s <= umax -> nlen s <= umax ->
   compute_from_bytes mean_d s = of_opt_f (mean_spec s).
 Proof. exact mean_bytes. Qed.
@@ -184,3 +190,4 @@ Print Assumptions C16_math_small.
 Print Assumptions C16_math_to_string.
 Print Assumptions C16_crc32.
 Print Assumptions C16_hash_fragmented.
+Print Assumptions C16_math_mode_partial.
